@@ -78,8 +78,14 @@ def _bounded(tree):
     if len(f.args.defaults) != 1 or not isinstance(f.args.defaults[0], ast.Constant):
         raise PinError("random_number: expected exactly one literal default (step)")
     body = _body_without_doc(f)
+    # optional argument conversion (6be3bcb) followed by `return <call>`
+    conv = ""
+    if len(body) == 2 and isinstance(body[0], ast.Assign):
+        conv = ast.unparse(body[0])
+        body = body[1:]
     if len(body) != 1 or not isinstance(body[0], ast.Return) or not isinstance(body[0].value, ast.Call):
-        raise PinError("random_number is no longer a single `return <call>`")
+        raise PinError("random_number is no longer `[argument conversion;] return <call>`")
+    out += _str_def("rnArgConversion", conv, "what random_number does with its arguments before the call ('' = nothing)")
     call = body[0].value
     if call.keywords or len(call.args) != 3:
         raise PinError("random_number: expected a call with exactly three positional arguments")
